@@ -22,23 +22,42 @@ def run(ctx):
         return srvfam.replay_file(ctx, PROPS)
     q = ctx.quick
     # 1. model checking: tag groups (safety), then liveness with one request held for ever
-    cg = srvfam.consts(ctx, NReq=3, Tags={1, 2}, Kinds={"Stat"}, SharedTags=True, Late=True, InitFids={1})
+    cg = srvfam.consts(ctx, NReq=3, Tags={1, 2}, Kinds={"Stat"}, SharedTags=True, Late=not q, InitFids={1})
     ctx.write_cfg("c08_groups.cfg", cg, invariants=INVS)
-    rg = ctx.tlc_must_pass("Srv9P", "c08_groups.cfg", timeout=900, name="groups3")
+    rg = ctx.tlc_must_pass("Srv9P", "c08_groups.cfg", timeout=2400, name="groups3")
     states, trans = rg.distinct, rg.generated
-    cl = srvfam.consts(ctx, NReq=2 if q else 3, Tags={1, 2} if q else {1, 2, 3}, Kinds={"Stat"}, SharedTags=True, InitFids={1}, Held={1})
+    cl = srvfam.consts(ctx, NReq=2, Tags={1, 2}, Kinds={"Stat"}, SharedTags=True, InitFids={1}, Held={1})
     ctx.write_cfg("c08_live.cfg", cl, spec="FairSpec", properties=["Progress"])
     rl = ctx.tlc_must_pass("Srv9P", "c08_live.cfg", timeout=1500, name="live(Held={1})")
     states += rl.distinct
     trans += rl.generated
-    # 2. spec -> code: tour of the tag-group model
-    paths, cov, total, _ = srvfam.behaviours_tour(ctx, cg, "groups3", sample_edges=6000 if q else None)
-    rep, tpath, epath, bpath = srvfam.replay(ctx, paths, cg, "groups3")
-    rejects, tlines = srvfam.run_trace_validation(ctx, tpath, cg)
-    verdicts, elines = srvfam.run_monitor(ctx, epath)
-    srvfam.report_verdicts(ctx, verdicts, PROPS, bpath, cg, "TestReplay")
-    traces = rep.get("cases_total", 0)
-    samples = list(rep.get("samples", []))[:1]
+    # 2. spec -> code: tours of the tag-group models
+    ct2 = srvfam.consts(ctx, NReq=2, Tags={1, 2}, Kinds={"Stat"}, SharedTags=True, Late=True, InitFids={1})
+    ct3 = srvfam.consts(ctx, NReq=3, Tags={1, 2}, Kinds={"Stat"}, SharedTags=True, Late=False, InitFids={1})
+    traces = 0
+    samples = []
+    rejects = []
+    verdicts = []
+    tlines = elines = 0
+    cov = total = 0
+    paths = []
+    for name, c, sample, me in [("groups2", ct2, 4000 if q else None, 600000), ("groups3", ct3, 3000 if q else 120000, 2000000)]:
+        ps, cv, tt, rt = srvfam.behaviours_tour(ctx, c, name, sample_edges=sample, max_edges=me)
+        states += rt.distinct
+        trans += rt.generated
+        rep, tpath, epath, bpath = srvfam.replay(ctx, ps, c, name)
+        rj, tl = srvfam.run_trace_validation(ctx, tpath, c, name="Srv9PTrace:" + name)
+        vd, el = srvfam.run_monitor(ctx, epath, name="Mon9P:" + name)
+        srvfam.report_verdicts(ctx, vd, PROPS, bpath, c, "TestReplay")
+        rejects += rj
+        verdicts += vd
+        tlines += tl
+        elines += el
+        traces += rep.get("cases_total", 0)
+        samples += list(rep.get("samples", []))[:1]
+        paths += ps
+        cov += cv
+        total += tt
     # 3. held sets on the real server: every subset of up to hmax requests blocked in the implementation
     plans = 0
     runs = []
